@@ -1,7 +1,9 @@
 CONSTANTS
   Addrs = {"127.0.0.1", "127.0.0.2", "::1", "10.1.2.3"}
   Peers = {"127.0.0.1", "127.0.0.2", "::1"}
-  DualStackPeers = {"127.0.0.2"}
+  V4Addrs = {"127.0.0.1", "127.0.0.2", "10.1.2.3"}
+  Duals = {TRUE}
+  ListForms = {FALSE}
   Garbage = {"unknown"}
   Lists = {{}, {"127.0.0.2"}, {"10.1.2.3"}, {"127.0.0.2", "::1"}}
   MaxXff = 2
